@@ -51,6 +51,7 @@ structure Acct where
   outpoint : OutPoint
   version : Nat
   out : Out
+  expiry : Nat := 0
 deriving DecidableEq, Repr
 
 /-- a stored order: nonce, and the node filters `OrderMatchValidate` applies -/
@@ -68,6 +69,7 @@ structure Diff where
   newOutpoint : Option OutPoint
   newVersion : Nat
   newOut : Option Out
+  newExpiry : Nat := 0           -- 0 = unchanged (`AccountDiff.NewExpiry`)
 deriving DecidableEq, Repr
 
 /-- `order.Batch` -/
@@ -279,7 +281,10 @@ OUTPUT_RECREATED case) -/
 def stagedRow (a : Acct) (d : Diff) : Acct :=
   match d.newOutpoint with
   | some op => { a with outpoint := op, out := d.newOut.getD a.out,
-                        version := if d.newVersion > a.version then d.newVersion else a.version }
+                        version := if d.newVersion > a.version then d.newVersion else a.version,
+                        -- ExpiryModifier(diff.NewExpiry) under `SupportsAccountExtension() && NewExpiry != 0`
+                        -- (every batch version the manager is configured with here supports it)
+                        expiry := if d.newExpiry ≠ 0 then d.newExpiry else a.expiry }
   | none => { a with out := d.newOut.getD a.out }   -- used up: same outpoint and script, value := ending balance
 
 def storerRows (db : DB) (f : Faults) : List Diff → Nat → Option (List Acct)
